@@ -283,6 +283,38 @@ func c19Subjects() []c19Subject {
 			}
 			return p
 		}, func(o any) string { return authenticode.VerifDump(o.(*authenticode.PECOFFBinary)) }, imgOps[:3]},
+		// a database that holds lists without entries between others (what removing the last entry of a
+		// list through the list itself leaves): encoding is read-only whatever the lists hold
+		{"signature database with empty lists between the others", func() any {
+			db, err := signature.ReadSignatureDatabase(bytes.NewReader(dbBytes))
+			if err != nil {
+				panic(err)
+			}
+			out := signature.SignatureDatabase{signature.NewSignatureList(signature.CERT_SHA256_GUID), db[0], signature.NewSignatureList(signature.CERT_X509_GUID), db[1], db[2]}
+			return &out
+		}, func(o any) string { return deepdump.Dump(o) }, dbOps},
+		// an image whose table holds, in front of a valid signature, one whose SpcIndirectDataContent names
+		// another data type (the neighbouring object identifier ...2.1.21)
+		{"image with a signature of another Spc data type in front of a valid one", func() any {
+			p0, err := authenticode.Parse(bytes.NewReader(c19Image()))
+			if err != nil {
+				panic(err)
+			}
+			good, err := p0.Sign(keys.K(1), keys.C(1))
+			if err != nil {
+				panic(err)
+			}
+			odd := bytes.Replace(good, []byte{0x2b, 0x06, 0x01, 0x04, 0x01, 0x82, 0x37, 0x02, 0x01, 0x0f}, []byte{0x2b, 0x06, 0x01, 0x04, 0x01, 0x82, 0x37, 0x02, 0x01, 0x15}, 1)
+			img, err := refpe.Attach(c19Image(), odd, good)
+			if err != nil {
+				panic(err)
+			}
+			p, err := authenticode.Parse(bytes.NewReader(img))
+			if err != nil {
+				panic(err)
+			}
+			return p
+		}, func(o any) string { return authenticode.VerifDump(o.(*authenticode.PECOFFBinary)) }, imgOps},
 		{"signature database", func() any {
 			db, err := signature.ReadSignatureDatabase(bytes.NewReader(dbBytes))
 			if err != nil {
@@ -688,7 +720,7 @@ func c19Units(tier string) []string {
 		u = append(u, fmt.Sprintf("seq#%d", si))
 		// subjects added for one specific hazard each (clock-dependent or hand-built values): in the
 		// quick tier their interleavings are explored for two threads x one operation only
-		light := tier != "thorough" && (strings.Contains(s.name, "advancing clock") || strings.Contains(s.name, "clock advances") || strings.Contains(s.name, "hand-built") || strings.Contains(s.name, "unparsable"))
+		light := tier != "thorough" && (strings.Contains(s.name, "advancing clock") || strings.Contains(s.name, "clock advances") || strings.Contains(s.name, "hand-built") || strings.Contains(s.name, "unparsable") || strings.Contains(s.name, "empty lists") || strings.Contains(s.name, "another Spc data type"))
 		for k := 0; k < len(s.ops); k++ {
 			u = append(u, fmt.Sprintf("sched2x1#%d#%d", si, k))
 			if !light {
